@@ -427,3 +427,48 @@ Fixpoint read_loop {A} (try : nat -> bytes -> peek_err -> try_res A)
 (* RequestHeader.Read over a bufio.Reader of size bsize on a source that yields input k bytes at a time *)
 Definition req_read_chunks (cfg : hcfg) (bsize k : nat) (input : bytes) (final : peek_err) : try_res req_head :=
   read_loop (req_try_read cfg) (length input + 2) 1 bsize k [] input final.
+
+(* ---------- Read over a connection that delivers the input by a schedule and then stays IDLE ---------- *)
+(* The read loops of RequestHeader.readLoop(r, true) and ResponseHeader.Read: n := 1; after ErrNeedMore
+   n = r.Buffered() + 1.  Nothing is discarded before success, so n = len(buffered) + 1 in every iteration
+   (the first included), and Peek(n) needs exactly one successful underlying Read when the buffer has room:
+       for buffered < n && buffered < size && err == nil { fill() }.
+   [chunks] is the delivery schedule: the i-th Read call on the connection returns the i-th chunk (cut to the free
+   buffer space; the remainder is returned by the next call); when the schedule is exhausted the connection is
+   IDLE — a Read would block for ever.  Result:
+     Answered r k : the loop returned r after k successful Read calls, without attempting another one;
+     AsksMore k   : after k successful Read calls the loop issued a Read on the idle connection (it hangs);
+     IdleBug      : model artefact (fuel) — unreachable. *)
+Inductive idle_res (A : Type) : Type := Answered (r : try_res A) (reads : nat) | AsksMore (reads : nat) | IdleBug.
+Arguments Answered {A} r reads. Arguments AsksMore {A} reads. Arguments IdleBug {A}.
+
+Fixpoint read_idle {A} (try : nat -> bytes -> peek_err -> try_res A)
+         (fuel bsize : nat) (buf : bytes) (chunks : list bytes) (reads : nat) : idle_res A :=
+  match fuel with
+  | O => IdleBug
+  | S f =>
+      let n := length buf + 1 in                        (* 1 at the start, r.Buffered() + 1 afterwards *)
+      if length buf <? bsize then
+        match chunks with
+        | [] => AsksMore reads                          (* fill() on the idle connection *)
+        | c :: rest =>
+            let m := Nat.min (length c) (bsize - length buf) in
+            let buf' := buf ++ firstn m c in
+            let chunks' := match skipn m c with [] => rest | c' => c' :: rest end in
+            match try n buf' PENil with
+            | TNeedMore => read_idle try f bsize buf' chunks' (S reads)
+            | r => Answered r (S reads)
+            end
+        end
+      else                                              (* buffer full: Peek(size + 1) = ErrBufferFull, no Read *)
+        match try n buf PEBufferFull with
+        | TNeedMore => IdleBug
+        | r => Answered r reads
+        end
+  end.
+
+Definition nonempty_chunks (chunks : list bytes) : list bytes :=
+  filter (fun c => match c with [] => false | _ => true end) chunks.
+
+Definition req_read_idle (cfg : hcfg) (bsize : nat) (chunks : list bytes) : idle_res req_head :=
+  read_idle (req_try_read cfg) (length (concat chunks) + 2) bsize [] (nonempty_chunks chunks) 0.
